@@ -438,7 +438,9 @@ func c25ForgedWeak() *explore.Scenario {
 }
 
 func c25Scenarios(thorough bool) []*explore.Scenario {
-	return []*explore.Scenario{c25Traffic("traffic-shapes", false), c25Tamper("every-byte-tamper", false), c25ForgedWeak()}
+	// the weak scenarios run last: EnableWeakCiphers is process-global and irreversible
+	return []*explore.Scenario{c25Traffic("traffic-shapes", false), c25Tamper("every-byte-tamper", false), c25Independent("rfc-reference-record-oracle", false),
+		c25ForgedWeak(), c25Independent("rfc-reference-record-oracle-weak-suites", true)}
 }
 
 func init() {
